@@ -41,6 +41,37 @@ typedef booster::shared_ptr<sessions::session_storage> storage_ptr;
 
 static const char *PREFIX = "sc";
 
+// long byte strings (values / blobs at the codec bounds: 2 MiB) are rendered as ~<length>~<crc32> on both sides
+static std::string hexd(std::string const &v)
+{
+	if(v.size() <= 4096) return hx::hex(v);
+	static uint32_t tab[256]; static bool init = false;
+	if(!init) { for(uint32_t i=0;i<256;i++) { uint32_t c = i; for(int k=0;k<8;k++) c = (c & 1) ? (0xEDB88320u ^ (c >> 1)) : (c >> 1); tab[i] = c; } init = true; }
+	uint32_t c = 0xFFFFFFFFu;
+	for(size_t i=0;i<v.size();i++) c = tab[(c ^ (unsigned char)v[i]) & 0xFF] ^ (c >> 8);
+	c ^= 0xFFFFFFFFu;
+	std::ostringstream ss; ss << "~" << v.size() << "~" << c;
+	return ss.str();
+}
+
+// pattern content for the bound cases: the first n bytes of a 64-byte unit repeated; the unit is itself a well-formed sequence of
+// three packed entries (role=admin, uid=0 exposed, p=<filler>), so that a length field that wraps makes load_data read forged keys
+static std::string pattern(size_t n)
+{
+	static std::string unit;
+	if(unit.empty()) {
+		static const unsigned char h1[4] = {4,40,0,0}, h2[4] = {3,12,0,0}, h3[4] = {1,48,1,0};
+		unit.append((char const *)h1,4); unit += "roleadmin";             // key_size 4, data_size 5
+		unit.append((char const *)h2,4); unit += "uid0";                  // key_size 3, exposed, data_size 1
+		unit.append((char const *)h3,4); unit += "p"; unit += std::string(38,'.');   // key_size 1, data_size 38
+		if(unit.size() != 64) abort();
+	}
+	std::string r; r.reserve(n);
+	while(r.size() + 64 <= n) r += unit;
+	r += unit.substr(0,n - r.size());
+	return r;
+}
+
 struct World;
 static World *W = 0;
 
@@ -85,7 +116,7 @@ public:
 	void save(std::string const &sid,time_t timeout,std::string const &in)
 	{
 		W->issue(sid);
-		std::ostringstream ss; ss << "S:" << W->render_id(sid) << ":" << (long long)timeout << ":" << hx::hex(in);
+		std::ostringstream ss; ss << "S:" << W->render_id(sid) << ":" << (long long)timeout << ":" << hexd(in);
 		W->log.push_back(ss.str());
 		in_->save(sid,timeout,in);
 	}
@@ -174,7 +205,7 @@ static std::string render_session_cookie(JarEntry const &e)
 		if(b64url::decode(v.substr(1),cipher) && cipher.size() >= 20 + 8) {
 			std::string plain = cipher.substr(0,cipher.size()-20);   // hmac-sha1: message followed by a 20 byte MAC
 			int64_t t; memcpy(&t,plain.data(),8);
-			std::ostringstream ss; ss << "C:" << (long long)t << ":" << hx::hex(plain.substr(8));
+			std::ostringstream ss; ss << "C:" << (long long)t << ":" << hexd(plain.substr(8));
 			return ss.str();
 		}
 		return "C?";
@@ -218,7 +249,7 @@ static void drop_expired(int b)
 
 static std::string entry_str(session_interface &s,std::string const &k)
 {
-	return hx::hex(k) + ":" + (s.is_exposed(k) ? "1" : "0") + ":" + hx::hex(s.get(k));
+	return hx::hex(k) + ":" + (s.is_exposed(k) ? "1" : "0") + ":" + hexd(s.get(k));
 }
 
 static std::vector<std::string> splitc(std::string const &s,char c)
@@ -256,6 +287,9 @@ static bool apply_ops(session_interface &s,std::vector<std::string> const &ops)
 		std::vector<std::string> a = splitc(ops[i],':');
 		std::string const &o = a[0];
 		if(o=="s") s.set(hx::unhex(a.at(1)),hx::unhex(a.at(2)));
+		else if(o=="g") s.set(hx::unhex(a.at(1)),pattern(atol(a.at(2).c_str())));          // value = pattern of the given length
+		else if(o=="gk") s.set(pattern(atol(a.at(1).c_str())),hx::unhex(a.at(2)));         // key = pattern of the given length
+		else if(o=="gg") s.set(pattern(atol(a.at(1).c_str())),pattern(atol(a.at(2).c_str())));  // both
 		else if(o=="e") s.erase(hx::unhex(a.at(1)));
 		else if(o=="c") s.clear();
 		else if(o=="x") s.expose(hx::unhex(a.at(1)));
